@@ -18,7 +18,9 @@ suite `roundtrip` (C04): real derived types → `from_type` → arrays → value
               struct fields are traced in the order the derive presents them (`fieldOrderOk`);
               `from_type` fails exactly under the documented preconditions of the type (declared per zoo type:
               maps need `map_as_struct(false)`, Null positions need `allow_null_fields`, enums without data need
-              `enums_without_data_as_strings` or `allow_null_fields`): `SaModel.Roundtrip.traceRefused`.
+              `enums_without_data_as_strings` or `allow_null_fields`): `SaModel.Roundtrip.traceRefused`; a root that is
+              not traced to a non-nullable struct (zoo flag `badroot`: unit struct, scalar newtype, Option, enum — tied to
+              the model's `recordRoot` and to `C04_root_refused` by the bridge) is refused under EVERY option set.
   spec C04 : `from_type` succeeded, `to_marrow` succeeded and EVERY front end returned a sequence equal to the
           original (`==` on the real type, after the documented normalisation of nested Options; and equal recorded
           call streams, which also sees `-0.0` vs `0.0`).  Documented exclusions are `na` with explicit tags:
@@ -26,7 +28,7 @@ suite `roundtrip` (C04): real derived types → `from_type` → arrays → value
           a refused `from_type` under (3).
           (4) THE TIE OF THE TYPE MODEL (Driver/RoundtripBridge.lean): the description of the zoo type in the model's type
               language (`Roundtrip.Ty`, shipped by the harness) is evaluated through `ser`, `toTraceTy` + `Trace.fromType`,
-              `toTarget` + `readAll`, `dvalOf`, `norm` and the whole chain of `C04_end_to_end`, and compared with what the
+              `toTarget` + `readAll`, `dvalOf`, `norm` and the whole chain of `C04_end_to_end_root`, and compared with what the
               real derived impls / the crate did on the case; signatures `roundtrip/bridge/<check>/<type-class>`, tags
               `bridge:inside-fragE` / `bridge:outside-fragE:<reason>` and one tag per check that ran.
   C16   : no panic in any stage.
@@ -119,7 +121,10 @@ def handleCore (j : Json) : Except String Verdict := do
              why := "recorder ∘ sval ≠ id on a recorded value of a real derived type: sval.rs does not issue the calls the derive issues" }
   -- ---- from_type
   let ft ← getObj j "from_type"
-  let refused := traceRefused opts (flags.contains "maps") (flags.contains "nulls") (flags.contains "dataless")
+  -- a root `from_type` does not support at all (declared by the zoo: flag `badroot`; tied to the model's `recordRoot` and to
+  -- `C04_root_refused` in Driver/RoundtripBridge.lean) is refused under every option set
+  let refused := if flags.contains "badroot" then some "root-not-a-record"
+    else traceRefused opts (flags.contains "maps") (flags.contains "nulls") (flags.contains "dataless")
   match implCls ft with
   | "ok" => pure ()
   | "err" =>
@@ -186,7 +191,7 @@ def handle (j : Json) : Except String Verdict := do
   let opts := optsOfJson ((getObj j "options").toOption.getD Json.null)
   let rows ← (← getArr j "rows").toList.mapM svalOfJson
   let fields ← (← getArr j "schema").toList.mapM fieldOfJson
-  let b ← Driver.RoundtripBridge.check j opts rows fields (flags.contains "unordered")
+  let b ← Driver.RoundtripBridge.check j opts rows fields (flags.contains "unordered") (flags.contains "badroot")
   let v := { v with tags := v.tags ++ b.tags }
   match b.bad with
   | some (what, why) =>
